@@ -4,9 +4,10 @@ S_ALL = [
     "S1 Python int is a mathematical integer (true in CPython)",
     "S3 attribute lookup follows the classes built by executing the real source; no monkey patching at run time",
     "S5/S7 sorted() returns a permutation; a child list is treated as a bag once it has an abstract segment",
-    "S6 hash(int)=int for |x|<2^61-1 except hash(-1)=-2; str/tuple hashes uninterpreted",
-    "S8 iterators over abstract sequences are modelled as re-iterable sequences (one-shot exhaustion not modelled)",
-    "ids are modelled as totally ordered opaque values (==, <, hash only)",
+    "S6 hash(int)=int for |x|<2^61-1 except hash(-1)=-2; str hashes uninterpreted; A-hash: tuple hashes collide only when the component hashes coincide",
+    "S8 map()/filter() over an abstract sequence are one-shot iterators whose consumers run one after the other",
+    "ids are modelled as totally ordered opaque values (==, <, hash; startswith/endswith/in as uninterpreted predicates fixed on concrete and generated ids)",
+    "comprehensions and for-loops of the module text are desugared mechanically before compilation (pyvc.desugar); loops over an abstract sequence are executed once on the generic element with append / integer accumulation / early exit turned into folds",
     "A-sha: AtLeast._id_generator is replaced by its assumed contract (result is a function of child ids, value, sign) when its arguments are symbolic",
     "maz.filter_map_concat is replaced by its assumed contract on abstract sequences (the real maz source runs otherwise)",
 ]
@@ -114,7 +115,7 @@ PROPERTIES = {
                        "(all public methods incl. evaluate/to_ge_polyhedron/solve), two-configurator cache scenario ADDED: frame obligations for StingyConfigurator.add and default_prios; stand-in rt.c09_configurator_purity (sequences of configurator calls incl. add/select).",
     },
     "C10": {
-        "harness_modules": ["contracts.c10"],
+        "harness_modules": ["contracts.c10", "contracts.c10shape"],
         "lean": True,
         "rt": ["rt.logic:c10_validation"],
         "level": "other",
@@ -123,7 +124,7 @@ PROPERTIES = {
                        "from the real source on every run, identify two nodes exactly when id and definition agree (all ids, bounds, "
                        "signs, values, child ids); with Lean's card_image_comp_iff this makes each cardinality check accept "
                        "exactly the single-definition models. bounded stand-in: traversal (_occurrences), cycle check, glue, both "
-                       "directions on adversarial id/bounds palettes.",
+                       "directions on adversarial id/bounds palettes. ADDED: contracts.c10shape -- the real errors() (with _occurrences, _dependencies, flatten, graphlib) on tree shapes with symbolic bounds of a repeated leaf id / symbolic thresholds and signs of a repeated sub-proposition id (explicit and generated): accepted iff one definition; cycle, repeated child, differing children or own bounds rejected; tree and shared sub-proposition accepted.",
     },
     "C11": {"harness_modules": ["contracts.c11"], "rt": ["rt.arrays:c11_reduce"], "level": "other",
             "assumptions": S_ALL + ["S2 (exact division/floor, see C12)", "variable bounds within the 16-bit default range"],
